@@ -13,6 +13,7 @@ import (
 // shapes.
 type control struct {
 	handlers int
+	many     bool
 	t        *rapid.T
 	trace    int64
 	feat     map[string]bool
@@ -73,7 +74,7 @@ func (g *control) proc(depth int, inLoop bool) psref.Tok {
 
 func (g *control) stmt(depth int, inLoop, first, last bool) []psref.Tok {
 	g.budget--
-	k := g.draw(36, "stmt")
+	k := g.draw(37, "stmt")
 	switch {
 	case k < 5:
 		return []psref.Tok{g.tr()}
@@ -232,6 +233,31 @@ func (g *control) stmt(depth int, inLoop, first, last bool) []psref.Tok {
 		default:
 			return []psref.Tok{psref.TL(name), psref.TX("load"), psref.TX("exec")}
 		}
+	case k == 36:
+		// Many rounds of a loop that is left with exit from the middle of its
+		// body (tokens follow the exit, or the `if` that carries it): whatever
+		// an interpreter keeps per entered procedure must be given back on
+		// every exit, 100-250 times in one run.
+		if g.many {
+			return []psref.Tok{g.tr()}
+		}
+		g.many = true
+		g.feat["many-exits"] = true
+		g.feat["loop"] = true
+		g.feat["exit"] = true
+		n := int64([]int{100, 120, 250}[g.draw(3, "manyn")])
+		var inner []psref.Tok
+		switch g.draw(4, "manykind") {
+		case 0:
+			inner = []psref.Tok{psref.TP(g.tr(), psref.TX("exit"), g.tr()), psref.TX("loop"), psref.TX("pop")}
+		case 1:
+			inner = []psref.Tok{psref.TI(0), psref.TI(1), psref.TI(5), psref.TP(psref.TX("pop"), psref.TX("true"), psref.TP(psref.TX("exit")), psref.TX("if"), g.tr()), psref.TX("for")}
+		case 2:
+			inner = []psref.Tok{psref.TX("["), g.tr(), g.tr(), psref.TX("]"), psref.TP(psref.TX("pop"), psref.TX("exit"), g.tr()), psref.TX("forall")}
+		default:
+			inner = []psref.Tok{psref.TI(3), psref.TP(psref.TP(psref.TX("exit"), g.tr()), psref.TX("exec"), g.tr()), psref.TX("repeat")}
+		}
+		return []psref.Tok{psref.TI(n), psref.TP(inner...), psref.TX("repeat"), g.tr()}
 	case k == 35:
 		// A procedure stored in errordict under an error name, then an
 		// operator that raises this error: the handler runs in place of the
